@@ -477,39 +477,39 @@ META = {
 FN = ["StaticFileHandler.__init__", "handle", "_is_safe_path", "_get_mime_type", "generate_directory_listing",
       "GeminiRequest.from_line", "parse_url", "pathlib.Path.resolve/is_dir/is_file/exists/stat/read_text/iterdir"]
 OBLIGATIONS = [
-    Ob("topology2_0", topology2_0, quick=600, thorough=2400,
+    Ob("topology2_0", topology2_0, quick=1000, thorough=3000,
        symbolic="kinds of 3 tree entries (11 each; quick tier: third entry fixed to a regular file), first segment in {e | d}, second segment over the tier's name alphabet "
                 "(9 quick / 21 thorough), trailing slash, listing flag",
        functions=FN, stubs=["ModelFS"]),
-    Ob("topology2_1", topology2_1, quick=600, thorough=2400,
+    Ob("topology2_1", topology2_1, quick=1000, thorough=3000,
        symbolic="kinds of 3 tree entries (11 each; quick tier: third entry fixed to a regular file), first segment in {index.gmi | g | ..}, second segment over the tier's name alphabet "
                 "(9 quick / 21 thorough), trailing slash, listing flag",
        functions=FN, stubs=["ModelFS"]),
-    Ob("topology2_2", topology2_2, quick=600, thorough=2400,
+    Ob("topology2_2", topology2_2, quick=1000, thorough=3000,
        symbolic="kinds of 3 tree entries (11 each; quick tier: third entry fixed to a regular file), first segment in {'' | sec | SECRET-s | .}, second segment over the tier's name alphabet "
                 "(9 quick / 21 thorough), trailing slash, listing flag",
        functions=FN, stubs=["ModelFS"]),
-    Ob("topology2_3", topology2_3, quick=600, thorough=2400, tiers=("thorough",),
+    Ob("topology2_3", topology2_3, quick=1000, thorough=3000, tiers=("thorough",),
        symbolic="kinds of 3 tree entries (11 each; quick tier: third entry fixed to a regular file), first segment in {root-x ... (remaining names)}, second segment over the tier's name alphabet "
                 "(9 quick / 21 thorough), trailing slash, listing flag",
        functions=FN, stubs=["ModelFS"]),
-    Ob("topology3_e", topology3_e, quick=600, thorough=2400,
+    Ob("topology3_e", topology3_e, quick=1000, thorough=3000,
        symbolic="kinds of 3 tree entries, three segments: first fixed (e), second and third over the tier's name alphabet, listing flag",
        functions=FN, stubs=["ModelFS"]),
-    Ob("topology3_d", topology3_d, quick=600, thorough=2400,
+    Ob("topology3_d", topology3_d, quick=1000, thorough=3000,
        symbolic="kinds of 3 tree entries, three segments: first fixed (d), second and third over the tier's name alphabet, listing flag",
        functions=FN, stubs=["ModelFS"]),
-    Ob("topology3_dotdot", topology3_dotdot, quick=600, thorough=2400,
+    Ob("topology3_dotdot", topology3_dotdot, quick=1000, thorough=3000,
        symbolic="kinds of 3 tree entries, three segments: first fixed (dotdot), second and third over the tier's name alphabet, listing flag",
        functions=FN, stubs=["ModelFS"]),
     Ob("root_and_single", root_and_single, quick=300, thorough=900,
        symbolic="kinds of 2 entries, empty path / one segment, trailing slash, listing flag", functions=FN, stubs=["ModelFS"]),
-    Ob("warm_handler_listing", warm_handler_listing, quick=600, thorough=2400,
+    Ob("warm_handler_listing", warm_handler_listing, quick=1000, thorough=3000,
        symbolic="a first request out of 5 (quick) / 10 (root itself, '/d/..', a file, a listing, a refused escape, ...), then a second "
                 "request of 1-2 segments over 6 (quick) / 12 names incl. '..', siblings and a file directly in the root's parent -- both "
                 "served by the same handler object; thorough: also the kinds of 2 tree entries and the trailing slash",
        functions=FN, stubs=["ModelFS"]),
-    Ob("warm_handler_plain", warm_handler_plain, quick=600, thorough=2400,
+    Ob("warm_handler_plain", warm_handler_plain, quick=1000, thorough=3000,
        symbolic="a first request out of 5 (quick) / 10 (root itself, '/d/..', a file, a listing, a refused escape, ...), then a second "
                 "request of 1-2 segments over 6 (quick) / 12 names incl. '..', siblings and a file directly in the root's parent -- both "
                 "served by the same handler object; thorough: also the kinds of 2 tree entries and the trailing slash",
